@@ -82,7 +82,12 @@ class ConstantKernel(Kernel):
         self._set_constant(value)
 
     def _set_constant(self, value: Tensor) -> None:
-        value = value.view(*self.batch_shape, 1)
+        if not torch.is_tensor(value):
+            value = torch.as_tensor(value).to(self.raw_constant)
+        if value.numel() == 1:  # a scalar (e.g. a sample of a scalar prior) applies to every batch element
+            value = value.expand(*self.batch_shape, 1)
+        else:
+            value = value.view(*self.batch_shape, 1)
         self.initialize(raw_constant=self.raw_constant_constraint.inverse_transform(value))
 
     def forward(
